@@ -21,6 +21,8 @@ after o, if o falls in a gap); it never consists only of records before o.
                         if `RestoreFromS3` succeeds, every fetch at an offset at or below the last retained offset — inside a retained
                         segment, before the first one, or IN A HOLE between two retained segments — returns non-empty data that
                         starts at the first byte of the first retained batch reaching the offset.
+* `fetch_progress_after_loss_run`  … and in every state reached from the restored log by appends / flushes / gated flushes / reads
+                        (up to the next restart): e.g. an offset in the hole while newer batches are buffered.
 * `search_lookup_misses_hole`  witness for the seeded change C04-r2-1: `Read`'s segment lookup rewritten with `sort.Search`
                         answers nothing for an offset in a hole between two retained segments; the coded lookup snaps forward.
 * `old_livelock`        the code before the fix: three one-record batches in one segment, index
@@ -217,6 +219,28 @@ theorem _root_.KafVerif.C04.fetch_progress_after_loss (iv : Int) (c : Bool) (sta
     rw [hrun] at this
     exact this
 
+/-- **C04 (after object loss, and everything up to the next restart).** As `fetch_progress_after_loss`, followed by ANY sequence
+`ops2` of appends (declared length), flushes, gated flushes, releases, reads and cache drops on the restored log (run `Small`, no
+further restart): in the state reached, whenever `h` is the first batch of the log that reaches `o` (committed before or after the
+restart, in flight, or buffered — e.g. `o` in a hole while newer batches sit in the write buffer), `Read` returns non-empty data
+starting at `h`'s first byte.  It never skips a retained segment in favour of the buffered tail. -/
+theorem _root_.KafVerif.C04.fetch_progress_after_loss_run (iv : Int) (c : Bool) (start : Int) (ops : List Op)
+    (hr : RunOK (PLog.new iv c start) ops) (losses : List Loss) (st last : Int) (hst : start ≤ st)
+    (hres : (restoreAt (losses.foldl lose { l := ops.foldl step (PLog.new iv c start) }) st).2 = .ok last)
+    (ops2 : List Op)
+    (hr2 : RunOKG (restoreAt (losses.foldl lose { l := ops.foldl step (PLog.new iv c start) }) st).1.l ops2)
+    (o m : Int) (h : Batch) (t : List Batch) :
+    let l' := ops2.foldl step (restoreAt (losses.foldl lose { l := ops.foldl step (PLog.new iv c start) }) st).1.l
+    runFrom l'.log o = h :: t →
+    ∃ d, (read l' o m).2 = .data d ∧ d ≠ [] ∧ (d <+: h.bytes ∨ h.bytes <+: d) ∧ ¬ h.last < o := by
+  intro l' hrun
+  obtain ⟨hi, hg, _⟩ := good_reach (PLog.new iv c start) ops (inv_new iv c start) (good_new iv c start) hr
+  obtain ⟨i0, g0⟩ := restore_invG hi hg (cacheOff_reach iv c start ops) losses st last hst hres
+  obtain ⟨⟨m0, h1, h2, _⟩, g1, g2, g3, _⟩ := gapped_reach _ ops2 i0 g0 hr2
+  exact KafVerif.C04.fetch_progress_gapped m0 h1 h2 g1 g2 (fun b hb => by
+    have := (g3 b hb).1.2
+    intro hnil; rw [hnil] at this; simp [hdrMin] at this) o m h t hrun
+
 /-! ### the segment lookup rewritten as a binary search (seeded change C04-r2-1) -/
 
 /-- a 61-byte one-record batch with a declared length and a marker byte -/
@@ -299,5 +323,24 @@ set_option maxRecDepth 100000 in
 example : RunOK (PLog.new 100 true 0)
     [.append (tiny 1), .append (tiny 2), .flush, .append (tiny 3), .gate, .append (tiny 4), .read 2 61, .release,
      .restartAt 2, .append (tiny 5), .read 3 70, .dropcache, .read 1 10] := by decide
+
+instance (op : Op) : Decidable (NoRestart op) := by cases op <;> unfold NoRestart <;> infer_instance
+def decRunOKG : (ops : List Op) → (l : PLog) → Decidable (RunOKG l ops)
+  | [], l => inferInstanceAs (Decidable (Small l))
+  | op :: t, l =>
+    have := decRunOKG t (step l op)
+    inferInstanceAs (Decidable (Small l ∧ Declared op ∧ NoRestart op ∧ RunOKG (step l op) t))
+instance (l : PLog) (ops : List Op) : Decidable (RunOKG l ops) := decRunOKG ops l
+
+set_option maxRecDepth 100000 in
+/-- non-vacuity of the hypotheses of `fetch_progress_after_loss(_run)`: the hole layout is a `RunOK` history, the restore succeeds,
+a tail appended afterwards is a `RunOKG` run, and offset 1 (in the hole) is answered with the batch at offset 2 while a newer
+batch is buffered -/
+example : RunOK (PLog.new 1 false 0) [.append (tiny 1), .flush, .append (tiny 2), .flush, .append (tiny 3), .flush] ∧
+    (restoreAt ([Loss.index 1].foldl lose { l := holeLog0 }) 1).2 = .ok 2 ∧
+    RunOKG (restoreAt ([Loss.index 1].foldl lose { l := holeLog0 }) 1).1.l [.append (tiny 4), .read 1 61] ∧
+    (read (([.append (tiny 4)] : List Op).foldl step (restoreAt ([Loss.index 1].foldl lose { l := holeLog0 }) 1).1.l) 1 61).2 =
+      .data (patch ((parse (tiny 3)).getD ⟨0, 0, 0, []⟩) 2).bytes := by
+  decide
 
 end KafVerif.PLog
